@@ -478,7 +478,7 @@ func (e *Env) load(addr ssa.Value, at ssa.Instruction, typ types.Type) *Term {
 								if cv, isV := in.(ssa.Value); isV {
 									cid = e.prefix + cv.Name()
 								}
-								ct := &Term{Op: "clobbered", Name: CalleeName(c), Args: []*Term{{Op: "alloc", Name: allocName(alloc), ID: e.prefix + alloc.Name()}}, ID: cid}
+								ct := &Term{Op: "clobbered", Name: CalleeName(c), Args: []*Term{{Op: "alloc", Name: allocName(alloc), ID: e.prefix + alloc.Name(), Typ: alloc.Type(), Val: alloc}}, ID: cid}
 								for _, f := range lp {
 									ct = projField(ct, f)
 								}
@@ -660,7 +660,7 @@ func (e *Env) term(v ssa.Value) *Term {
 	case *ssa.Builtin:
 		return &Term{Op: "func", Name: "builtin:" + x.Name()}
 	case *ssa.Alloc:
-		return &Term{Op: "alloc", Name: allocName(x), ID: e.prefix + x.Name()}
+		return &Term{Op: "alloc", Name: allocName(x), ID: e.prefix + x.Name(), Typ: x.Type(), Val: x}
 	case *ssa.FieldAddr:
 		st := x.X.Type().Underlying().(*types.Pointer).Elem().Underlying().(*types.Struct)
 		return &Term{Op: "field", Name: st.Field(x.Field).Name(), Args: []*Term{e.ptrTarget(x.X)}}
